@@ -37,6 +37,7 @@ import (
 type target struct {
 	file, recv, name string
 	pre              bool // translate only the statements BEFORE the function's first top-level loop; the result is the locals
+	stop             string // with pre: ... or before the first top-level statement whose text contains this
 	cases            bool // the function is an event loop `for { select { case ...: body } }`: one function per case
 	inner            bool // with iter: the loop is the endless loop NESTED in the function's outer endless loop
 	iter             bool // translate ONE ITERATION of the function's (single, conditional) top-level loop, locals as parameters
@@ -95,6 +96,7 @@ var targets = []target{
 	{file: "block/retriever.go", recv: "Manager", name: "processNextDAHeaderAndData", pre: true},
 	{file: "block/retriever.go", recv: "Manager", name: "processNextDAHeaderAndData", iter: true, ranges: true},
 	{file: "block/retriever.go", recv: "Manager", name: "fetchBlobs"},
+	{file: "block/manager.go", name: "NewManager", pre: true, stop: "config.DA.BlockTime.Duration == 0"},
 	{file: "block/reaper.go", recv: "Reaper", name: "SubmitTxs", ranges: true},
 	{file: "pkg/signer/file/local.go", recv: "FileSystemSigner", name: "saveKeys"},
 	{file: "pkg/signer/file/local.go", recv: "FileSystemSigner", name: "loadKeys"},
@@ -1360,6 +1362,10 @@ func main() {
 			found := false
 			for _, st := range fd.Body.List {
 				if _, ok := st.(*ast.ForStmt); ok {
+					found = true
+					break
+				}
+				if tg.stop != "" && strings.Contains(text(st), tg.stop) {
 					found = true
 					break
 				}
